@@ -213,6 +213,9 @@ def real_part(tier, pid, focus, verdict):
             results.append(ce)
             if ce['cheated']:
                 break
+        nc = nested_cheat_scenario(root, bindir)
+        results.append(nc)
+        n_cheat += 1 if nc['cheated'] else 0
     val = validate_runs(results, root)
     n_cmds = sum(len(r['cmds']) for r in results)
     locks_cov = {}
@@ -330,6 +333,36 @@ def apalache_part(d, verdict, pid):
                 verdict.violation('apalache:%s' % name, rp, 'TokInd: the conservation invariant is not inductive (%s): %s' % (name, got))
     shutil.rmtree(os.path.join(wd, '_apalache-out'), ignore_errors=True)
     return out, tool
+
+
+def nested_cheat_scenario(root, bindir):
+    """a nested `redo -j2` inside a script (a second token pool with its own pipes) while a job of the outer pool gives up
+    its token waiting for a lock, is starved when the lock frees and cheats because the log viewer follows it"""
+    d = os.path.join(root, 'nested_cheat')
+    shutil.rmtree(d, ignore_errors=True)
+    p = os.path.join(d, 'p')
+    os.makedirs(p)
+    files = {'a.do': 'redo-ifchange c b e\n',
+             'c.do': 'sleep 0.5\nredo-ifchange d\nsleep 1.5\n',
+             'b.do': 'redo-ifchange d\nsleep 2.3\n',
+             'd.do': 'sleep 1\n',
+             'e.do': 'redo -j2 f\n',
+             'f.do': 'sleep 1.3\n'}
+    for n, t in files.items():
+        with open(os.path.join(p, n), 'w') as f:
+            f.write(t)
+    trace = os.path.join(d, 'trace.ndjson')
+    open(trace, 'w').close()
+    r = jobdrive.run_build(bindir, p, trace, ['redo', '-j2', 'a'], timeout=90)
+    probs = jobdrive.classify(r, True)
+    txt = open(trace).read()
+    res = {'sc': {'id': 'nested_cheat', 'j': 2, 'inherit': False}, 'dir': d, 'trace': trace,
+           'problems': ['redo -j2 a: ' + x for x in probs], 'cmds': [r], 'pj': files,
+           'cheated': '"ev":"Cheat"' in txt, 'nested': txt.count('"ev":"JsSetup","own":true') >= 2}
+    with open(os.path.join(d, 'scenario.json'), 'w') as f:
+        json.dump({'scenario': res['sc'], 'files': files, 'commands': [r], 'problems': res['problems'],
+                   'cheated': res['cheated'], 'nested': res['nested']}, f, indent=1)
+    return res
 
 
 def classify_key(pb):
